@@ -53,6 +53,10 @@ def check_file(ctx, model, nptdms, data, content, label):
     if model is not None:
         m = model.ask("read " + hx(data))
         d = compare_state(m, r)
+        if not d and r.get("ok"):
+            lay = model.ask("layout " + hx(data))
+            if lay.get("ok") and lay["groups"] != r.get("groups"):
+                d = ["group/channel layout: model %s real %s" % (lay["groups"], r.get("groups"))]
         if d:
             dis = dict(what="reader model vs TdmsFile.read on %s: %s" % (label, d[0]), file=data.hex(), diffs=d[:5])
     vio = None
